@@ -5,6 +5,7 @@ package gv
 // accounting used to check that claim by reflection, and Describe.
 
 import (
+	"os"
 	"fmt"
 	"math/big"
 	"reflect"
@@ -68,6 +69,16 @@ var plan []Case
 func CoveragePlan() []Case {
 	if plan != nil {
 		return plan
+	}
+	if Pinned == nil {
+		// which gated elements a message carries at a version comes from the pinned table
+		dir := os.Getenv("VERIF_DIR")
+		if dir == "" {
+			dir = "/verif"
+		}
+		if err := LoadPinned(dir); err != nil {
+			panic("pinned version table: " + err.Error())
+		}
 	}
 	u := U()
 	var p []Case
@@ -591,10 +602,10 @@ func (c *Coverage) Missing() []string {
 			if optional && c.Zero[key] == 0 {
 				miss = append(miss, "optional field never empty: "+key)
 			}
-			if f.Plan.HasRange {
+			if f.Plan.HasRange || (Pinned != nil && func() bool { _, ok := Pinned[t.String()+"."+f.SF.Name]; return ok }()) {
 				for _, ver := range Versions {
 					x := c.Gated[key][ver.String()]
-					in := f.InRange(int(ver.ProtocolVersionMajor), int(ver.ProtocolVersionMinor))
+					in := f.InRangeOf(t, int(ver.ProtocolVersionMajor), int(ver.ProtocolVersionMinor))
 					switch {
 					case in && x[1] == 0:
 						miss = append(miss, fmt.Sprintf("gated field never populated at v%s: %s", ver, key))
